@@ -26,7 +26,7 @@ RULE = ('corpus (F6-F9 witnesses, empty-window witnesses) first; exhaustive box:
         'reverse, item assignment, swap, insert, append, extend / +=, pop / del, remove, clear, seq.add_fts, changing the type or the locations of a feature) and of '
         'the sequence (rc with / without features, basket rc, reverse, complement, item assignment, fts re-assigned) on 1-3 objects of equal length with '
         'the same type names (same features shuffled / same number of features); patterns: lookup - length-preserving edit - same lookup; the same '
-        'lookup on every object around an edit of one; number of features going and coming back; every object observed after every step; '
+        'lookup on every object around an edit of one; number of features going and coming back; the type of a feature changed in place so that the answer moves; every object observed after every step; '
         'a BioBasket stream (0-7 sequences of different lengths, DNA / RNA / gapped; seqs[i], seqs[a:b:st] with any step, seqs[w], seqs[i, w], '
         'seqs[a:b:st, w] with w a type name / Feature / Location / int / slice, unsupported index shapes; sequences lacking the requested type; '
         'seqs.rc(update_fts) on the basket, on a sliced basket sharing the sequence objects and through sl(); '
@@ -68,7 +68,7 @@ ASSUMPTIONS = ['Python str restricted to ASCII; sequences over the 17-symbol IUP
 MODELLED_FUNCS = {
     'sugar/core/seq.py': ['BioSeq._getitem', 'BioSeq._slice_locs', 'BioSeq.rc', 'BioSeq.__getitem__', 'BioSeq.sl', 'BioSeq.__setitem__',
                           '_Sliceable_GetItem.__init__', '_Sliceable_GetItem.__getitem__',
-                          'BioBasket._getitem', 'BioBasket.__getitem__', 'BioBasket.sl', 'BioBasket.rc', 'BioBasket.fts', 'BioSeq.add_fts',
+                          'BioBasket._getitem', 'BioBasket.__getitem__', 'BioBasket.sl', 'BioBasket.rc', 'BioSeq.add_fts',
                           '_BioSeqStr.upper', '_BioSeqStr.lower', '_BioSeqStr.swapcase', '_BioSeqStr.replace', '_BioSeqStr.strip',
                           '_BioSeqStr.lstrip', '_BioSeqStr.rstrip'],
     'sugar/core/fts.py': ['FeatureList.slice', 'FeatureList.rc', 'FeatureList.get', 'FeatureList.select', 'FeatureList.sort',
@@ -532,9 +532,27 @@ def _fhist(rng):
         r = rng.random()
         return keep_edit(obj) if r < 0.6 else size_edit(obj) if r < 0.8 else seq_edit(obj)
 
-    pat = rng.randrange(5)
+    pat = rng.randrange(6)
     steps = []
-    if pat == 0:                                                  # lookup, edit of the same list, the same lookup again (and again)
+    if pat == 5:                                                  # the TYPE of a feature changes in place (same objects, same order)
+        o = rng.randrange(nobj)
+        fts0 = objs[o]['fts']
+        present = [t for t, _ in fts0 if t is not None]
+        nm = rng.choice(present) if present and rng.random() < 0.85 else name()
+        hit = [i for i, (t, _) in enumerate(fts0) if t is not None and t.lower() == nm.lower()]
+        other = rng.choice([t for t in pool if t.lower() != nm.lower()] or ['other'])
+        if hit and rng.random() < 0.5:                            # the answer loses the type: the next feature of the type answers
+            e = {'k': 'settype', 'i': hit[0], 't': other}
+        else:                                                     # an earlier feature acquires the type
+            e = {'k': 'settype', 'i': rng.randrange(max(hit[0], 1)) if hit else rng.randrange(len(fts0)), 't': rng.choice([nm, nm.swapcase()])}
+        lk = lookup(o)
+        for d in (lk, lk.get('st', {}).get('win', {}), lk.get('bidx', {}).get('win', {})):
+            if 'name' in d:
+                d['name'] = nm
+        steps = [lk, {'obj': o, 'op': 'edit', 'e': e}, json.loads(json.dumps(lk))]
+        if rng.random() < 0.5:
+            steps += [{'obj': o, 'op': 'edit', 'e': {'k': 'settype', 'i': e['i'], 't': fts0[e['i']][0] or other}}, json.loads(json.dumps(lk))]
+    elif pat == 0:                                                # lookup, edit of the same list, the same lookup again (and again)
         lk = lookup()
         steps = [lk, keep_edit(lk['obj']), dict(lk)]
         for _ in range(rng.randint(0, 2)):
